@@ -26,6 +26,9 @@ CHECKS = {
  'C11': dict(tech=B, cat='model_checking',
              text='the three build-time derivation functions of pr_data.c evaluated symbolically from the IR for all Z, shells and all 996 Auger macro values: Auger yield = 1 - omega - sum CK (CK set by macro NAME), net non-radiative total = raw total - CK-type transitions (by NAME), rate = raw/net with the source shell by NAME, CK-type reported unavailable',
              note='double modelled as real; raw tables and FluorYield/CosKronTransProb uninterpreted; accessor side is C01; pr_data.c compiled with -Dstatic= so that clang does not specialise the static functions to their call sites'),
+ 'C06': dict(tech=B, cat='model_checking',
+             text='all 21 _CP functions and the 4 refractive-index entry points evaluated symbolically from the IR with the parser/NIST lookup as stubs returning NULL or a symbolic composition of 1..3 elements: mixture rule with the same trailing arguments, formula-then-NIST order, unknown-compound / density / energy errors, element failure => failure, Re/Im/complex agreement, and the composition object released exactly once on every path',
+             note='double modelled as real; compositions of at most 3 elements (uniform loop body); elemental functions uninterpreted with error iff 0; parser/NIST behaviour is C07/C15'),
 }
 NA = {
  'C19': 'no symbolic engine for Java/JVM bytecode is installed (no JBMC/SPF); a hand-written Java->SMT translator for 5900 lines using ByteBuffer I/O, exceptions and collections is out of reach; see DESIGN.md C19',
